@@ -43,13 +43,13 @@ var Prop = &engine.Prop{
 		"an integer counts as accepted by a block when SetI64 / SetU32 returned nil; the block must afterwards iterate exactly the accepted integers",
 		"the sparse/dense traversal threshold of the internal Bit64 iterator (verif hook VerifSetSparseMagic) is set per case from the case seed to 9 (default), 0 or 64; the result of an iteration must not depend on it",
 	},
-	ShardsQuick: 4, ShardsThorough: 16,
+	ShardsQuick: 4, ShardsThorough: 64,
 	Kinds: []engine.Kind{
-		{Name: "marshal", Quick: 2400, Thorough: 60000, Fn: marshalCase},
-		{Name: "unmarshal", Quick: 3000, Thorough: 75000, Fn: unmarshalCase},
-		{Name: "bigu32", Quick: 2400, Thorough: 60000, Fn: bigCase},
-		{Name: "u32tip", Quick: 2000, Thorough: 50000, Fn: tipCase},
-		{Name: "lists", Quick: 1200, Thorough: 30000, Fn: listCase},
+		{Name: "marshal", Quick: 2400, Thorough: 240000, Fn: marshalCase},
+		{Name: "unmarshal", Quick: 3000, Thorough: 300000, Fn: unmarshalCase},
+		{Name: "bigu32", Quick: 2400, Thorough: 240000, Fn: bigCase},
+		{Name: "u32tip", Quick: 2000, Thorough: 200000, Fn: tipCase},
+		{Name: "lists", Quick: 1200, Thorough: 120000, Fn: listCase},
 	},
 	// All counters are pure functions of (seed, case counts); floors are ~1/10 of
 	// what seed 1 quick reaches.
